@@ -118,8 +118,10 @@ pub fn read_encrypted_full(
     tpe: FileType,
     id: &Id,
 ) -> Result<Vec<u8>, (&'static str, String)> {
-    DecryptBackend::new(be, key(k))
-        .read_encrypted_full(tpe, id)
+    let mut dbe = DecryptBackend::new(be, key(k));
+    // as configured by Repository::open_raw
+    dbe.set_verify_id(true);
+    dbe.read_encrypted_full(tpe, id)
         .map(|b| b.to_vec())
         .map_err(|e| (classify(&e), e.to_string().replace('\n', " ")))
 }
